@@ -473,10 +473,12 @@ def run_sim(fn, seed=None, preempt=False, script=None, spin_limit=5000000, time_
     def on_alarm(signum, frame):
         fired["v"] = True
         s.killed = True
-        running = [t for t in s.tasks[1:] if t.state != "done"]
-        for t in running:
-            _async_raise(t.thread, Killed)
-            t.sem.release()
+        # no lock / semaphore operation in here: the handler may have interrupted the main thread inside
+        # Semaphore.release (holding the semaphore's own non-reentrant lock); the tasks are released by
+        # Sim.shutdown() once the exception has unwound the main task
+        for t in s.tasks[1:]:
+            if t.state != "done" and t.thread is not None:
+                _async_raise(t.thread, Killed)
         raise RealTimeLimit(f"no result after {real_limit} s of real time at virtual t={s.now:.2f}; tasks: {s.tasks!r}")
 
     old = None
